@@ -107,6 +107,8 @@ pub mod shims {
         // the next task to finish: one of those in the bag, which leaves it
         #[verifier::external_body]
         pub fn next(&mut self) -> (r: Option<F>)
+            // polling an empty bag answers `None` at once: a loop around it would spin without ever waiting (the event loop ends when there is nothing to renew)
+            requires old(self).v@.len() > 0, //@C19.the_event_loop_never_polls_an_empty_set_of_tasks,C07.the_event_loop_never_polls_an_empty_set_of_tasks
             ensures match r {
                 Some(t) => exists|i: int| 0 <= i < old(self).v@.len() && old(self).v@[i] == t && final(self).v@ == old(self).v@.remove(i),
                 None => old(self).v@.len() == 0 && final(self).v@ == old(self).v@ } { unimplemented!() }
